@@ -60,6 +60,25 @@ Definition res_eqb_for (o : kop) (a b : res val) : bool :=
     end
   else res_eqb a b.
 
+(* A bulk mutator (update / reset / extend / += / slice assignment) that REJECTS its argument may have applied part of
+   it before raising.  Which part is left behind is not fixed by any property (C11 only demands that nothing forbidden
+   gets in - the oracle walks memory and backend after every step - and that a rejected SINGLE-element operation changes
+   nothing).  The correspondence therefore does not compare the partial state with the model's: it re-synchronises the
+   model with what the implementation left in its resources (as an out-of-band write followed by the owner's load,
+   which merges in place exactly like the implementation's own next load) and keeps checking handle attachment. *)
+Definition bulk_op (o : nop) : bool :=
+  match o with
+  | OD (DUpdate _) | OD (DReset _) | OL (LReset _) | OL (LExtend _) | OL (LIAdd _) | OL (LSetSlice _ _) => true
+  | _ => false
+  end.
+Definition validation_err (e : err) : bool :=
+  match e with EType | EValue | EKeyType | EInvalidKey => true | _ => false end.
+Definition resync_owner (k : kstep) (rm rexp : res val) : option nat :=
+  match k_op k, rm, rexp with
+  | KOp oid _ o, Err e, Err e' => if bulk_op o && validation_err e && validation_err e' then Some oid else None
+  | _, _, _ => None
+  end.
+
 Definition check_step (T : class_table) (st : mstate * lmap) (k : kstep)
   : (mstate * lmap) + nat :=
   let (s, m) := st in
@@ -88,17 +107,34 @@ Definition check_step (T : class_table) (st : mstate * lmap) (k : kstep)
       | KAny, _ => after m
       | KVal _ _, MDetached => after m
       | KVal rexp lexp, MR rm hm =>
-          if negb (res_eqb_for (k_op k) rm rexp) then inr 2%nat
-          else
-            match lexp, hm with
-            | None, None => after m
-            | Some L, Some h =>
-                match nlookup L m with
-                | Some h' => if Nat.eqb h h' then after m else inr 3%nat
-                | None => if in_range h m then inr 3%nat else after ((L, h) :: m)
-                end
-            | _, _ => inr 3%nat
-            end
+          let strict :=
+            if negb (res_eqb_for (k_op k) rm rexp) then inr 2%nat
+            else
+              match lexp, hm with
+              | None, None => after m
+              | Some L, Some h =>
+                  match nlookup L m with
+                  | Some h' => if Nat.eqb h h' then after m else inr 3%nat
+                  | None => if in_range h m then inr 3%nat else after ((L, h) :: m)
+                  end
+              | _, _ => inr 3%nat
+              end in
+          match resync_owner k rm rexp with
+          | Some oid =>
+              (* first the model's own behaviour; else the implementation's resources with the owner's load (the
+                 operation loaded before it failed); else without it (it failed before loading) *)
+              match strict with
+              | inl st' => inl st'
+              | inr _ =>
+                  let s2 := fold_left (fun acc (rc : nat * option val) => fst (step T acc (MExt (fst rc) (snd rc)))) (k_res k) s in
+                  let s3 := fst (step T s2 (MTouch oid false)) in
+                  let live_ok (sx : mstate) :=
+                    forallb (fun p : nat * nat => Bool.eqb (memb (fst p) (k_live k)) (memb (snd p) (all_ids sx))) m in
+                  if live_ok s3 then inl (s3, m)
+                  else if live_ok s2 then inl (s2, m) else inr 6%nat
+              end
+          | None => strict
+          end
       end
   end.
 
